@@ -28,6 +28,12 @@ type c18Act struct {
 	// Gate: the Write of this request returns only after the client's reader has
 	// consumed the response to it (a legal, unlucky scheduling of the sender).
 	Gate bool `json:"gate,omitempty"`
+	// Gate2: the sender is descheduled right before it arms the read deadline for this
+	// request, until the response has been consumed (if the code permits that order).
+	Gate2 bool `json:"gate2,omitempty"`
+	// HoldClear (kind answersend): the reader is descheduled right before it clears the
+	// read deadline after this answer, until the next request has armed it.
+	HoldClear bool `json:"hold_clear,omitempty"`
 }
 
 type c18Case struct {
@@ -105,6 +111,21 @@ func (s *rcServer) answerID(id uint32) bool {
 	}
 	s.mu.Unlock()
 	return false
+}
+
+// answerByCall answers the most recently received outstanding request (used by the
+// deadline gate, which fires right after the request of that call was written).
+func (s *rcServer) answerByCall(_ *c18Call) {
+	for i := 0; i < 1000; i++ {
+		s.mu.Lock()
+		n := len(s.outstanding)
+		s.mu.Unlock()
+		if n > 0 {
+			s.answer(n - 1)
+			return
+		}
+		runtime.Gosched()
+	}
 }
 
 func (s *rcServer) nOutstanding() int {
@@ -191,6 +212,48 @@ func c18RunInBubble(c c18Case) (out Outcome) {
 			runtime.Gosched()
 		}
 	}
+	var gate2Call *c18Call
+	var holdClear bool
+	var armSeq int
+	opts.BeforeDeadline = func(t time.Time) {
+		mu.Lock()
+		if !t.IsZero() {
+			armSeq++
+			call := gate2Call
+			gate2Call = nil
+			mu.Unlock()
+			if call == nil {
+				return
+			}
+			srv.answerByCall(call)
+			for i := 0; i < 20000; i++ {
+				mu.Lock()
+				d := call.res != nil
+				mu.Unlock()
+				if d {
+					return
+				}
+				runtime.Gosched()
+			}
+			return
+		}
+		if !holdClear {
+			mu.Unlock()
+			return
+		}
+		holdClear = false
+		start := armSeq
+		mu.Unlock()
+		for i := 0; i < 20000; i++ {
+			mu.Lock()
+			d := armSeq > start
+			mu.Unlock()
+			if d {
+				return
+			}
+			runtime.Gosched()
+		}
+	}
 	env, err := newRCEnv(c.Queue, time.Duration(c.FlushMS)*time.Millisecond, readTimeout, false, opts)
 	if err != nil {
 		return viol("harness", "dial: %v", err)
@@ -211,6 +274,7 @@ func c18RunInBubble(c c18Case) (out Outcome) {
 		synctest.Wait()
 	}()
 	nextMarker := 0
+	var sendGate2 bool
 	send := func(batched, cancelIt, gate bool) *c18Call {
 		nextMarker++
 		ctx, cancel := context.WithCancel(context.Background())
@@ -232,6 +296,12 @@ func c18RunInBubble(c c18Case) (out Outcome) {
 		if gate && !batched {
 			gateCall = cc
 		}
+		if sendGate2 && !batched {
+			mu.Lock()
+			gate2Call = cc
+			mu.Unlock()
+		}
+		sendGate2 = false
 		cc.sentAt = time.Now()
 		env.rc.QueueRPC(g)
 		if cancelIt {
@@ -252,7 +322,17 @@ func c18RunInBubble(c c18Case) (out Outcome) {
 		}
 		switch a.Kind {
 		case "send":
+			sendGate2 = a.Gate2 && !a.Gate
 			send(false, false, a.Gate)
+		case "answersend":
+			mu.Lock()
+			holdClear = a.HoldClear
+			mu.Unlock()
+			srv.answer(a.I)
+			send(false, false, false)
+			mu.Lock()
+			holdClear = false
+			mu.Unlock()
 		case "sendbatched":
 			send(true, false, false)
 		case "cancelsend":
@@ -428,7 +508,9 @@ func c18Gen(t *rapid.T) c18Case {
 			k := rapid.IntRange(1, 4).Draw(t, "k")
 			for i := 0; i < k; i++ {
 				kind := rapid.SampledFrom([]string{"send", "send", "sendbatched", "cancelsend"}).Draw(t, "skind")
-				c.Acts = append(c.Acts, c18Act{Kind: kind, Gate: kind == "send" && rapid.IntRange(0, 2).Draw(t, "gate") == 0})
+				act := c18Act{Kind: kind, Gate: kind == "send" && rapid.IntRange(0, 2).Draw(t, "gate") == 0}
+				act.Gate2 = kind == "send" && !act.Gate && rapid.IntRange(0, 2).Draw(t, "gate2") == 0
+				c.Acts = append(c.Acts, act)
 			}
 			if c.FlushMS > 0 {
 				c.Acts = append(c.Acts, c18Act{Kind: "wait", MS: c.FlushMS})
@@ -445,11 +527,15 @@ func c18Gen(t *rapid.T) c18Case {
 	}
 	n := rapid.IntRange(1, 25).Draw(t, "nacts")
 	for i := 0; i < n; i++ {
-		k := rapid.SampledFrom([]string{"send", "send", "sendbatched", "cancelsend", "answer", "answer", "answer", "wait", "wait"}).Draw(t, "kind")
+		k := rapid.SampledFrom([]string{"send", "send", "sendbatched", "cancelsend", "answer", "answer", "answer", "answersend", "wait", "wait"}).Draw(t, "kind")
 		a := c18Act{Kind: k}
 		switch k {
 		case "send":
 			a.Gate = rapid.IntRange(0, 2).Draw(t, "gate") == 0
+			a.Gate2 = !a.Gate && rapid.IntRange(0, 2).Draw(t, "gate2") == 0
+		case "answersend":
+			a.I = rapid.IntRange(0, 5).Draw(t, "i")
+			a.HoldClear = rapid.Bool().Draw(t, "holdclear")
 		case "answer":
 			a.I = rapid.IntRange(0, 5).Draw(t, "i")
 		case "wait":
